@@ -168,15 +168,25 @@ def run(ctx):
             sample={'fn': 'Element::set_character_data_internal', 'event': 'character data write (is_ref)', 'partner': 'fix_reference_origins / add_reference_origin'})
     # the old key handed to fix_reference_origins was read BEFORE the write (otherwise fix would move new -> new)
     okold = False
+    from flow import defs_of, source_locals
     for pos, t in es.iter_calls():
-        if (callee_of(t) or '').endswith('fix_reference_origins') and wr:
-            if 'old_refval' in source_names(es, t['args'][1]):
-                for l, n in es.names.items():
-                    if n == 'old_refval':
-                        from flow import defs_of
-                        for dpos, dst in defs_of(es, l):
-                            if wr[0] in es.reach_from(dpos) and dpos not in es.reach_from(wr[0]):
-                                okold = True
+        if (callee_of(t) or '').endswith('fix_reference_origins') and wr and len(t['args']) > 1:
+            # every call result the old key derives from (character_data(), to_string(), as_deref() ...) was computed before the write
+            dpos = []
+            for l in source_locals(es, t['args'][1], depth=14):
+                for q, d in defs_of(es, l):
+                    if d.get('k') == 'call' and not call_matches(d, r'Option::<T>::(as_deref|as_ref|as_mut|cloned|map|unwrap_or_default|unwrap_or)$|Deref>::deref$|::as_str$'):
+                        dpos.append(q)
+            # the Option/String adaptors applied at the call site itself are not reads of the element: look through them
+            for l in source_locals(es, t['args'][1], depth=14):
+                for q, d in defs_of(es, l):
+                    if d.get('k') == 'call' and call_matches(d, r'Option::<T>::(as_deref|as_ref|cloned|map)$|Deref>::deref$|::as_str$') and d['args']:
+                        for l2 in source_locals(es, d['args'][0], depth=14):
+                            for q2, d2 in defs_of(es, l2):
+                                if d2.get('k') == 'call' and not call_matches(d2, r'Option::<T>::(as_deref|as_ref|cloned|map)$|Deref>::deref$|::as_str$'):
+                                    dpos.append(q2)
+            if dpos and all(wr[0] in es.reach_from(q) and q not in es.reach_from(wr[0]) for q in dpos):
+                okold = True
     C.check(okold, 'C05-PAIR-origins', 'Element::set_character_data_internal|old-ref-read-before-write', 'the old reference text handed to fix_reference_origins is not captured before the write')
 
     st = P.get('Element::set_reference_target')
@@ -317,7 +327,11 @@ def run(ctx):
         wl = calls(fro, r'RwLock::<R, T>::(write|try_write|try_write_for)$|RwLock<.*>::(write|try_write|try_write_for)$')
         rem_side = [o for o in direct if o['op'] in ('get_mut', 'remove', 'swap_remove', 'shift_remove', 'remove_entry', 'entry')]
         add_side = [o for o in direct if o['op'] in ('insert', 'get_mut', 'entry')]
-        ok = len(wl) == 1 and not indirect and len(direct) >= 2 and bool(rem_side) and bool(add_side) and all(fro.pos_dominates(wl[0], o['pos']) for o in direct)
+        # a delegation to a helper that locks by itself is allowed only as an alternative (e.g. "no previous target: just add"): never on a
+        # path that also performs a direct operation
+        mixed = any(o2['pos'] in fro.reach_from(o1['pos']) or o1['pos'] in fro.reach_from(o2['pos']) for o1 in indirect for o2 in direct)
+        two_deleg = any(o2['pos'] in fro.reach_from(o1['pos']) for o1 in indirect for o2 in indirect if o1 is not o2)
+        ok = len(wl) == 1 and not mixed and not two_deleg and len(direct) >= 2 and bool(rem_side) and bool(add_side) and all(fro.pos_dominates(wl[0], o['pos']) for o in direct)
         C.check(ok, 'C05-MUST-atomic-retarget', 'fix_reference_origins|one-lock-for-remove-and-add', 'fix_reference_origins no longer removes the referrer from the old list and adds it to the new list under one write lock of the model (found %d lock acquisitions, %d direct and %d delegated map operations): between the two halves the reference is in no referrer list' % (len(wl), len(direct), len(indirect)),
                 '%s:%d' % (fro.file, fro.line), sample={'fn': 'fix_reference_origins', 'write_locks': len(wl), 'direct_map_ops': len(direct)})
     # ---- SIB-report --------------------------------------------------------------------------------
